@@ -246,7 +246,7 @@ func (g *Graph) Forward(start *Loc, edge EdgeFilter, visit func(n ast.Node, l Lo
 			continue
 		}
 		if len(it.b.Succs) == 0 {
-			if onExit != nil {
+			if onExit != nil && !g.IsNoReturnExit(it.b) { // a crash is not a way of returning
 				if onExit(it.b) == Hit {
 					var last ast.Node
 					if len(it.b.Nodes) > 0 {
@@ -569,6 +569,11 @@ func condImplies(cond ast.Expr, truth bool, rel Rel) bool {
 	if u, ok := cond.(*ast.UnaryExpr); ok && u.Op == token.NOT {
 		return condImplies(u.X, !truth, rel)
 	}
+	// errors.Is(e, S) is read as e == S (for the sentinels of this repository, which are compared by identity
+	// wherever they are not wrapped)
+	if x, y, ok := errorsIsOperands(cond); ok {
+		cond = &ast.BinaryExpr{X: x, Op: token.EQL, Y: y}
+	}
 	be, ok := cond.(*ast.BinaryExpr)
 	if !ok {
 		return false
@@ -630,7 +635,7 @@ func (g *Graph) HoldsAt(loc Loc, rel Rel) bool {
 				if !((t == rel.X && cse == rel.Y) || (t == rel.Y && cse == rel.X)) || !opImplies(op, rel.Op) {
 					continue
 				}
-			} else if !condImplies(info.Cond, info.Val, rel) {
+			} else if !condImplies(g.expandBoolLocal(info.Cond), info.Val, rel) {
 				continue
 			}
 			s := b.Succs[si]
@@ -665,4 +670,48 @@ func reachesBlockG(g *Graph, from, to *cfg.Block) bool {
 		return false
 	}
 	return dfs(from)
+}
+
+// errorsIsOperands: cond is errors.Is(e, S).
+func errorsIsOperands(cond ast.Expr) (ast.Expr, ast.Expr, bool) {
+	call, ok := ast.Unparen(cond).(*ast.CallExpr)
+	if !ok || len(call.Args) != 2 {
+		return nil, nil, false
+	}
+	sel, ok := ast.Unparen(call.Fun).(*ast.SelectorExpr)
+	if !ok || sel.Sel.Name != "Is" {
+		return nil, nil, false
+	}
+	if id, ok := ast.Unparen(sel.X).(*ast.Ident); !ok || id.Name != "errors" {
+		return nil, nil, false
+	}
+	return call.Args[0], call.Args[1], true
+}
+
+
+// expandBoolLocal: `isNull := v == nil; if isNull {…}` tests v == nil. A condition that is (the negation of) a boolean
+// local with a single definition is replaced by that definition.
+func (g *Graph) expandBoolLocal(cond ast.Expr) ast.Expr {
+	c := ast.Unparen(cond)
+	if u, ok := c.(*ast.UnaryExpr); ok && u.Op == token.NOT {
+		inner := g.expandBoolLocal(u.X)
+		if inner != u.X {
+			return &ast.UnaryExpr{Op: token.NOT, X: &ast.ParenExpr{X: inner}}
+		}
+		return cond
+	}
+	id, ok := c.(*ast.Ident)
+	if !ok || g.f == nil {
+		return cond
+	}
+	obj := g.f.ObjOf(id)
+	if v, ok := obj.(*types.Var); !ok || v.IsField() {
+		return cond
+	}
+	if rhs, _, ok := g.f.definedBy(g.body, obj); ok {
+		if _, isCmp := ast.Unparen(rhs).(*ast.BinaryExpr); isCmp {
+			return rhs
+		}
+	}
+	return cond
 }
